@@ -11,7 +11,8 @@ CONSTANTS
   Hs <- L_H
   Clamps <- L_Bool
   Actuations <- L_Bool
-  DisSets <- L_Dis3
+  DisSets <- L_DisQ
+  Gravs <- L_G1
   Variant = "doc"
 VIEW ViewNoEv
 INVARIANT TypeOK
@@ -23,6 +24,7 @@ INVARIANT ActuationOffNoJointForce
 INVARIANT DisabledFrozen
 INVARIANT PowerBalance
 INVARIANT Undriven
+INVARIANT GravCompRouted
 INVARIANT ActInRange
 INVARIANT JointClampMinimal
 INVARIANT MuscleEnvelope
